@@ -1,20 +1,21 @@
 #!/bin/bash
-# bin/verify_mutant.sh <worktree with MUTANT/ and the change applied>
+# bin/verify_mutant.sh <worktree> [MUTANT dir name, default MUTANT]
 # Confirms: patch applies to the clean tree; tests pass with the change; demo fails with it and passes without it.
 WT=$1
+M=${2:-MUTANT}
 cd "$WT" || exit 2
-LOG=$WT/MUTANT/verify.log
+LOG=$WT/$M/verify.log
 : > "$LOG"
 git checkout -q -- . 2>>"$LOG"
-git apply --check MUTANT/patch.diff >>"$LOG" 2>&1 || { echo "patch does not apply to the clean tree"; exit 1; }
+git apply --check $M/patch.diff >>"$LOG" 2>&1 || { echo "patch does not apply to the clean tree"; exit 1; }
 build() { cmake -G Ninja -S "$WT" -B "$WT/_build" -DCMAKE_BUILD_TYPE=RelWithDebInfo >>"$LOG" 2>&1 && cmake --build "$WT/_build" >>"$LOG" 2>&1; }
 # without the change
 build || { echo "clean build failed"; exit 1; }
-( cd MUTANT && timeout 900 bash ./demo.sh </dev/null >>"$LOG" 2>&1 ); CLEAN=$?
+( cd $M && timeout 900 bash ./demo.sh </dev/null >>"$LOG" 2>&1 ); CLEAN=$?
 # with the change
-git apply MUTANT/patch.diff
+git apply $M/patch.diff
 build || { echo "build with change failed"; exit 1; }
 ctest --test-dir "$WT/_build" -j8 --timeout 900 </dev/null >>"$LOG" 2>&1; TESTS=$?
-( cd MUTANT && timeout 900 bash ./demo.sh </dev/null >>"$LOG" 2>&1 ); MUT=$?
+( cd $M && timeout 900 bash ./demo.sh </dev/null >>"$LOG" 2>&1 ); MUT=$?
 echo "demo_clean_exit=$CLEAN tests_exit=$TESTS demo_mutant_exit=$MUT"
 [ $CLEAN -eq 0 ] && [ $TESTS -eq 0 ] && [ $MUT -ne 0 ]
